@@ -194,6 +194,7 @@ func (t *HtmlScanner) readText() (tok *Token, err error) {
 								// 结束标签无属性
 							},
 						}
+						tagToken.Tag.AttrMap() // 同上 提前构造
 						t.nextToken = tagToken
 						t.state = stateInit
 						return textToken, nil
@@ -477,6 +478,7 @@ func (t *HtmlScanner) readTag() (tok *Token, err error) {
 		if ch == '>' { // Tag 结束
 			t.state = stateInit // 状态扭转
 			tag.Name = tagName.String()
+			tag.AttrMap() // 提前构造查找表: Tag 之后会被并发执行的模板共享只读
 			return t.addToken(&Token{
 				Kind:  TokenKindTag,
 				Value: buf.String(),
